@@ -258,6 +258,77 @@ func independent(n, m int) func() vrt.Run {
 	}
 }
 
+// symWorkers: w interchangeable workers (GoSym) take tokens from a queue and record them:
+// with `locked` under a mutex (every arrival order of the tokens is an outcome), without it by a
+// load / store pair on a counter (lost updates).  The outcome sets must not depend on Config.Symmetry.
+func symWorkers(w int, locked bool) func() vrt.Run {
+	return func() vrt.Run {
+		q := make(chan int, w)
+		var mu sync.Mutex
+		var order []int
+		var c int
+		return vrt.Run{Body: func() {
+			for i := 0; i < w; i++ {
+				vrt.Send(q, i+1)
+			}
+			var tok vrt.SymTok
+			var wg sync.WaitGroup
+			for i := 0; i < w; i++ {
+				vrt.WGAdd(&wg, 1)
+				vrt.GoSym(&tok, func() {
+					vrt.Recv(q)
+					v := <-q
+					if locked {
+						vrt.MutexLock(&mu)
+						order = append(order, v)
+						vrt.MutexUnlock(&mu)
+					} else {
+						vrt.Atomic(&c)
+						x := c
+						vrt.Atomic(&c)
+						c = x + v
+					}
+					vrt.WGDone(&wg)
+				})
+			}
+			vrt.WGWait(&wg)
+		}, Verdict: verdict(func() string { return fmt.Sprint(order, c) })}
+	}
+}
+
+// symBroken: the second worker is spawned from the same site and loop, but only after the parent
+// has heard from the first one (an acquire): the two are not interchangeable - the first worker's
+// write to x is ordered before the second one's read only through the parent.  The class must be
+// closed by the parent's receive, and the outcomes (no race) must be those found without symmetry.
+func symBroken() vrt.Run {
+	ch := make(chan int, 1)
+	var x int
+	got := -1
+	return vrt.Run{Body: func() {
+		var tok vrt.SymTok
+		var hs []vrt.Handle
+		for i := 0; i < 2; i++ {
+			i := i
+			hs = append(hs, vrt.GoSym(&tok, func() {
+				if i == 0 {
+					vrt.Wr(unsafe.Pointer(&x), "toy.go:4")
+					x = 5
+					vrt.Send(ch, 1)
+				} else {
+					vrt.Rd(unsafe.Pointer(&x), "toy.go:5")
+					got = x
+				}
+			}))
+			if i == 0 {
+				vrt.Recv(ch)
+				<-ch
+			}
+		}
+		vrt.Join(hs[0])
+		vrt.Join(hs[1])
+	}, Verdict: verdict(func() string { return fmt.Sprint(got) })}
+}
+
 func outcomes(st *vrt.Stats) []string {
 	var o []string
 	for k := range st.Outcomes {
@@ -303,6 +374,44 @@ func SelfCheck() (ok bool, report []string) {
 			}
 		}
 		report = append(report, fmt.Sprintf("%s: executions uncached=%d cached=%d", t.name, execs[0], execs[1]))
+	}
+	// symmetry reduction: same outcome sets with and without it, on toys whose workers are
+	// interchangeable (fewer executions with it) and on one whose workers are not
+	symToys := []toy{
+		{"sym-3-locked", symWorkers(3, true), []string{"ok:[1 2 3] 0", "ok:[1 3 2] 0", "ok:[2 1 3] 0", "ok:[2 3 1] 0", "ok:[3 1 2] 0", "ok:[3 2 1] 0"}, ""},
+		{"sym-3-lost-update", symWorkers(3, false), []string{"ok:[] 1", "ok:[] 2", "ok:[] 3", "ok:[] 4", "ok:[] 5", "ok:[] 6"}, ""},
+		{"sym-2-lost-update", symWorkers(2, false), []string{"ok:[] 1", "ok:[] 2", "ok:[] 3"}, ""},
+		{"sym-not-interchangeable", func() vrt.Run { return symBroken() }, []string{"ok:5"}, ""},
+	}
+	for _, t := range symToys {
+		var execs [3]int64
+		for i, cfg := range []vrt.Config{{PreemptBound: -1, NoCache: true}, {PreemptBound: -1}, {PreemptBound: -1, Symmetry: true}} {
+			if cfg.NoCache && strings.HasPrefix(t.name, "sym-3") {
+				continue // 23 k and 126 k executions: the cached run is the reference for these two
+			}
+			st := vrt.NewExplorer(cfg).Explore(t.mk)
+			got := outcomes(st)
+			execs[i] = st.Executions
+			if strings.Join(got, ";") != strings.Join(t.want, ";") || !st.Exhaustive || len(st.Violations) > 0 {
+				ok = false
+				report = append(report, fmt.Sprintf("FAIL %s cache=%v symmetry=%v outcomes=%v want=%v violations=%d why=%s", t.name, !cfg.NoCache, cfg.Symmetry, got, t.want, len(st.Violations), st.Why))
+			}
+		}
+		if strings.HasPrefix(t.name, "sym-3") && execs[2] >= execs[1] {
+			ok = false
+			report = append(report, fmt.Sprintf("FAIL %s: symmetry did not reduce executions (%d vs %d)", t.name, execs[2], execs[1]))
+		}
+		report = append(report, fmt.Sprintf("%s: executions uncached=%d cached=%d cached+symmetry=%d", t.name, execs[0], execs[1], execs[2]))
+	}
+	// bounded exploration with symmetry: every bound reports the outcomes the same bound reports without it
+	for b := 0; b <= 3; b++ {
+		a := vrt.NewExplorer(vrt.Config{PreemptBound: b}).Explore(symWorkers(3, false))
+		s := vrt.NewExplorer(vrt.Config{PreemptBound: b, Symmetry: true}).Explore(symWorkers(3, false))
+		if strings.Join(outcomes(a), ";") != strings.Join(outcomes(s), ";") {
+			ok = false
+			report = append(report, fmt.Sprintf("FAIL sym-3-lost-update bound %d: outcomes %v with symmetry, %v without", b, outcomes(s), outcomes(a)))
+		}
+		report = append(report, fmt.Sprintf("sym-3-lost-update preemptions<=%d: executions %d, with symmetry %d, outcomes %d", b, a.Executions, s.Executions, len(outcomes(a))))
 	}
 	// independent steps: the uncached count is the number of interleavings of
 	// (n+1) and (m+1) steps after both threads exist; checked against the closed form
